@@ -11,6 +11,26 @@ Import ListNotations.
 Open Scope string_scope.
 Open Scope Z_scope.
 
+(* collection classes whose instances are modelled as a box around a list / dict:
+   [VObj (box_name b) [("", inner)]] (the class names contain a dot, so no dataclass is mistaken for one) *)
+Inductive box := BDeque | BOrdered | BDefault | BProxy | BCounter | BChain.
+Definition box_name (b: box) : string :=
+  match b with
+  | BDeque => "collections.deque" | BOrdered => "collections.OrderedDict" | BDefault => "collections.defaultdict"
+  | BProxy => "types.MappingProxyType" | BCounter => "collections.Counter" | BChain => "collections.ChainMap" end.
+(* A ChainMap always has at least one map: ChainMap( *[] ) is ChainMap({}).  That canonical empty ChainMap
+   (maps == [{}]) is REPRESENTED by the empty list of maps (the harness emits it so), hence the content [[{}]]
+   built by the unpacker is normalised to [[]] and the packer turns the content [[]] into the wire form [[{}]].
+   The factory of a defaultdict is not part of the value (Python's == ignores it as well). *)
+Definition is_chain (b: box) : bool := match b with BChain => true | _ => false end.
+Definition box_val (b: box) (inner: pv) : pv :=
+  VObj (box_name b) [("", match b, inner with BChain, VList [VDict []] => VList [] | _, _ => inner end)].
+(* the content [[{}]] is never the representation of a ChainMap (it is normalised to [[]]) *)
+Definition chain_canon (b: box) (inner: pv) : bool :=
+  negb (is_chain b && match inner with VList [VDict []] => true | _ => false end).
+Definition chain_empty (chain: bool) (inner: pv) : bool :=
+  chain && match inner with VList [] => true | _ => false end.
+
 (* ------------------------------------------------------------------ *)
 (* type grammar covered by the type-level theorems *)
 Inductive sty :=
@@ -27,7 +47,13 @@ Inductive sty :=
 | SOpt (t: sty)
 | SData (c: string)
 | SNamed (c: string)                   (* typing.NamedTuple class, default as_list form *)
-| STyped (c: string).                  (* TypedDict class *)
+| STyped (c: string)                   (* TypedDict class *)
+| SSeq (t: sty)                        (* Sequence / MutableSequence: a list, always built by comprehension *)
+| SMap (kt vt: sty)                    (* Mapping / MutableMapping: a dict, always built by comprehension *)
+| SBox (b: box) (t: sty).              (* a collection class wrapped around the list / dict the inner type describes:
+                                          Deque[T] = SBox BDeque (SSeq T), OrderedDict[K,V] = SBox BOrdered (SMap K V),
+                                          DefaultDict / MappingProxyType likewise, Counter[K] = SBox BCounter (SMap K int),
+                                          ChainMap[K,V] = SBox BChain (SSeq (SMap K V)) (wire form: the list of its maps) *)
 
 (* one class table for dataclasses, NamedTuples and TypedDicts; a class is looked up by kind
    and name.  [sf_default]: dataclass field default / NamedTuple field default (ignored for a
@@ -81,7 +107,8 @@ Inductive penc :=
                                         (* [e0(x[0]), ..., *emid(x[i:j]), ..., ek(x[-1])] with the index / slice plan of arg_indexes *)
 | EData (c: string)                     (* dataclass packer (plain Config) *)
 | ENamed (c: string)                    (* [e0(value[0]), e1(value[1]), ...] over the NamedTuple fields *)
-| ETyped (c: string).                   (* d = {}; d[k] = e(value[k]) for required keys; optional keys when present *)
+| ETyped (c: string)                    (* d = {}; d[k] = e(value[k]) for required keys; optional keys when present *)
+| EBox (chain: bool) (e: penc).         (* e applied to the deque / mapping object itself ("for value in x", "x.items()", "x.maps") *)
 
 (* the index / slice descriptors computed by the arg_indexes loop of pack_tuple / unpack_tuple for
    [u] plain arguments, one unpacked argument, [m] plain arguments.  Hand-written closed form;
@@ -120,6 +147,9 @@ Fixpoint cp (cbn: bool) (t: sty) {struct t} : penc :=
   | SData c => EData c
   | SNamed c => ENamed c
   | STyped c => ETyped c
+  | SSeq t' => EListComp (cp true t')                      (* origin is not list: no .copy() *)
+  | SMap kt vt => EDictComp (cp true kt) (cp true vt)      (* origin is not dict: no .copy() *)
+  | SBox b t' => EBox (is_chain b) (cp true t')
   end.
 
 (* field-level nullability (builder.py): Optional / Any / None annotation or default None *)
@@ -424,6 +454,12 @@ Section Run.
               | _ => Exn XTypeError
               end
           end
+      | EBox ch e' =>
+          (* iterating a deque / x.items() of a dict subclass or proxy / x.maps: the comprehension runs on the content
+             (x.maps of the canonical empty ChainMap is [{}]) *)
+          match v with
+          | VObj _ [(_, inner)] => if chain_empty ch inner then Ok (VList [VDict []]) else pk inner e'
+          | _ => Exn XAttributeError end
       end.
 
   (* ---------------------------------------------------------------- *)
@@ -435,7 +471,7 @@ Section Run.
       | SBytes _ => match v with VBytes _ b => Ok (VStr (P.(p_b64enc) b)) | _ => Exn XTypeError end
       | SLeaf _ => match v with VLeaf k w => Ok (P.(p_render) k w) | _ => Exn XAttributeError end
       | SEnum _ => match v with VEnum en mn => lift (P.(p_enum_value) en mn) | _ => Exn XAttributeError end
-      | SList t' | SSet _ t' | STupleVar t' =>
+      | SList t' | SSet _ t' | STupleVar t' | SSeq t' =>
           match v with
           | VList l | VTuple l | VSet _ l => r <- mapM (fun x => ref_enc x t') l ;; Ok (VList r)
           | _ => Exn XTypeError end
@@ -464,7 +500,7 @@ Section Run.
                         | _ => fun _ => Exn XTypeError end) ;;
                 Ok (VList r)
           | _ => Exn XTypeError end
-      | SDict kt vt =>
+      | SDict kt vt | SMap kt vt =>
           match v with
           | VDict kvs =>
               r <- mapM (fun p => match p with (k, x) =>
@@ -522,6 +558,11 @@ Section Run.
               | _ => Exn XTypeError
               end
           end
+      | SBox b t' =>
+          (* the basic form of the list / dict the collection holds *)
+          match v with
+          | VObj _ [(_, inner)] => if chain_empty (is_chain b) inner then Ok (VList [VDict []]) else ref_enc inner t'
+          | _ => Exn XAttributeError end
       end.
 
   (* ---------------------------------------------------------------- *)
@@ -542,7 +583,8 @@ Section Run.
   | UDictComp (ku vu: pdec)
   | UData (c: string)
   | UNamed (c: string)                  (* C(u0(value[0]), ...) / the try-append-except IndexError function when C has defaults *)
-  | UTyped (c: string).                 (* d = {}; d[k] = u(value[k]) ...; key_value = value.get(k, MISSING) ... *)
+  | UTyped (c: string)                  (* d = {}; d[k] = u(value[k]) ...; key_value = value.get(k, MISSING) ... *)
+  | UBox (b: box) (u: pdec).            (* collections.deque(u) / OrderedDict(u) / Counter(u) / defaultdict(T, u) / MappingProxyType(u) / ChainMap( *u ) *)
 
   Fixpoint cu (cbn: bool) (t: sty) {struct t} : pdec :=
     match t with
@@ -563,6 +605,9 @@ Section Run.
     | SData c => UData c
     | SNamed c => UNamed c
     | STyped c => UTyped c
+    | SSeq t' => UListComp (cu true t')
+    | SMap kt vt => UDictComp (cu true kt) (cu true vt)
+    | SBox b t' => UBox b (cu true t')
     end.
 
   Definition coerce_s (s: scalar) (v: pv) : res pv :=
@@ -676,6 +721,7 @@ Section Run.
         match sfind E KTyped c with
         | None => Exn XAttributeError
         | Some k => td_nondict konst_u k.(sc_fields) end
+    | UBox b u' => r <- on_u u' s ;; Ok (box_val b r)
     end.
 
   Fixpoint uk (d: pv) {struct d} : pdec -> res pv :=
@@ -807,6 +853,7 @@ Section Run.
               | _ => td_nondict konst_u k.(sc_fields)
               end
           end
+      | UBox b u' => r <- on_u u' ;; Ok (box_val b r)
       end.
 
   (* ---------------------------------------------------------------- *)
@@ -883,7 +930,7 @@ Section Run.
     | SBytes m => b <- lift (P.(p_b64dec) (VStr s)) ;; Ok (VBytes m b)
     | SLeaf k => w <- lift (P.(p_parse) k (VStr s)) ;; Ok (VLeaf k w)
     | SEnum e => mn <- lift (P.(p_enum_of) e (VStr s)) ;; Ok (VEnum e mn)
-    | SList t' => r <- mapM (on_t t') (utf8_chars s) ;; Ok (VList r)
+    | SList t' | SSeq t' => r <- mapM (on_t t') (utf8_chars s) ;; Ok (VList r)
     | SSet fr t' => r <- mapM (on_t t') (utf8_chars s) ;;
         if forallb hashable r then Ok (VSet fr (set_of_list r)) else Exn XTypeError
     | STupleVar t' => r <- mapM (on_t t') (utf8_chars s) ;; Ok (VTuple r)
@@ -897,7 +944,7 @@ Section Run.
         Ok (VTuple r)
     | STupleU pre mid post =>
         r <- tu_ref on_t none_tail_t (utf8_chars s) pre mid post ;; Ok (VTuple r)
-    | SDict _ _ => Exn XAttributeError
+    | SDict _ _ | SMap _ _ => Exn XAttributeError
     | SOpt t' => on_t t' s
     | SData c => match sfind E KData c with
                  | Some _ => Exn XValueError
@@ -918,6 +965,7 @@ Section Run.
         match sfind E KTyped c with
         | None => Exn XAttributeError
         | Some k => td_nondict konst_t k.(sc_fields) end
+    | SBox b t' => r <- on_t t' s ;; Ok (box_val b r)
     end.
 
   Fixpoint ref_dec_g (d: pv) {struct d} : sty -> res pv :=
@@ -932,7 +980,7 @@ Section Run.
       | SBytes m => b <- lift (P.(p_b64dec) d) ;; Ok (VBytes m b)
       | SLeaf k => w <- lift (P.(p_parse) k d) ;; Ok (VLeaf k w)
       | SEnum e => mn <- lift (P.(p_enum_of) e d) ;; Ok (VEnum e mn)
-      | SList t' =>
+      | SList t' | SSeq t' =>
           match d with
           | VList l | VTuple l | VSet _ l => r <- mapM (fun x => ref_dec_g x t') l ;; Ok (VList r)
           | VDict kvs => r <- mapM (fun p => match p with (k, _) => ref_dec_g k t' end) kvs ;; Ok (VList r)
@@ -981,7 +1029,7 @@ Section Run.
                       | _ => fun _ => Exn XTypeError end) ;;
               Ok (VTuple r)
           end
-      | SDict kt vt =>
+      | SDict kt vt | SMap kt vt =>
           match d with
           | VDict kvs =>
               r <- mapM (fun p => match p with (k, x) =>
@@ -1052,6 +1100,9 @@ Section Run.
               | _ => td_nondict konst_t k.(sc_fields)
               end
           end
+      | SBox b t' =>
+          (* the canonical concrete class built from the converted list / dict *)
+          r <- on_t t' ;; Ok (box_val b r)
       end.
   End Mode.
 End Run.
